@@ -168,8 +168,9 @@ func genC13ThriftStrings(r *rng, budget int, thorough bool) int {
 	// the initial headroom of a conversion is a multiple of the INPUT size, so what matters is the expansion factor of the string
 	// and how much of the headroom earlier output has used, not the absolute length: short strings are as telling as long ones
 	lens := []int{60, 300, 2000, 5000, 9000}
+	longLeft := 0 // strings above 9 000 bytes: thorough tier only, a fixed number whatever the budget
 	if thorough {
-		lens = []int{60, 300, 2000, 5000, 12000, 20000, 40000}
+		longLeft = 24
 	}
 	// amount of output in front of the string, as a fraction of the string's length (in percent): from nothing to three times as much
 	ratios := []int{0, 15, 40, 80, 150, 300}
@@ -181,6 +182,11 @@ func genC13ThriftStrings(r *rng, budget int, thorough bool) int {
 		// whether the output buffer has to grow once or twice inside one string depends on the exact sizes (headroom = a multiple of the
 		// input size, rounded by the allocator): most cases draw length and amount of earlier output from continuous ranges
 		dense := r.chance(75)
+		if !dense && longLeft > 0 && r.chance(50) {
+			longLeft--
+			L = []int{12000, 20000, 40000}[r.intn(3)] + r.intn(40)
+			N = ratios[r.intn(len(ratios))] * L / 100 / 60
+		}
 		if dense {
 			L = 1500 + r.intn(2500)
 			N = (5 + r.intn(146)) * L / 100 / 60
@@ -408,7 +414,13 @@ func genC13ProtoSizes(r *rng, budget int, thorough bool) (made int, hung bool) {
 	w := newC13Sweep()
 	targets := []int{126, 127, 128, 129, 16382, 16383, 16384, 16385, 16390}
 	if thorough {
-		targets = append(targets, 300, 20000, 1<<21-1, 1<<21, 1<<21+1)
+		targets = append(targets, 300, 20000)
+	}
+	// payloads at the 4-byte length-prefix boundary (2^21): thorough tier only, a fixed small number whatever the budget, and only as
+	// string-padded nested messages / map values (the extracted checker needs seconds per megabyte)
+	huge := []int{}
+	if thorough || os.Getenv("C13_ONLY_HUGE") != "" {
+		huge = []int{1<<21 - 1, 1 << 21, 1<<21 + 1, 1 << 21}
 	}
 	var batch [][]byte
 	flush := func() bool {
@@ -422,12 +434,17 @@ func genC13ProtoSizes(r *rng, budget int, thorough bool) (made int, hung bool) {
 	}
 	for made+len(batch) < budget {
 		T := targets[r.intn(len(targets))]
+		shape := r.intn(5)
+		if len(huge) > 0 {
+			T, huge = huge[0], huge[1:]
+			shape = r.intn(3)
+		}
 		var v *pgVal
-		switch r.intn(5) {
+		switch shape {
 		case 0: // nested message of that payload size
-			v = pgMsgVal(pgFV{F: w.fm, V: w.m1OfSize(r, T, r.chance(30), false)})
+			v = pgMsgVal(pgFV{F: w.fm, V: w.m1OfSize(r, T, T < 100000 && r.chance(30), false)})
 		case 1: // message two levels down: both enclosing lengths cross the boundary
-			v = pgMsgVal(pgFV{F: w.fm, V: w.m1OfSize(r, T, r.chance(30), true)})
+			v = pgMsgVal(pgFV{F: w.fm, V: w.m1OfSize(r, T, T < 100000 && r.chance(30), true)})
 		case 2: // map value (the entry payload is a few bytes longer)
 			mv := &pgVal{Tag: 5, Kind: pgKMessage, KeyKind: 5}
 			mv.Entries = []pgKV{{K: pgNum(5, big.NewInt(int64(r.intn(100)))), V: w.m1OfSize(r, T-4+r.intn(5), false, false)}}
@@ -462,12 +479,17 @@ func genC13ProtoSizes(r *rng, budget int, thorough bool) (made int, hung bool) {
 func genC13ProtoStrings(r *rng, budget int, thorough bool) (made int, hung bool) {
 	w := newC13Sweep()
 	lens := []int{60, 300, 2000, 5000, 9000}
+	longLeft := 0
 	if thorough {
-		lens = []int{60, 300, 2000, 5000, 12000, 20000, 40000}
+		longLeft = 6
 	}
 	ratios := []int{0, 15, 40, 80, 150, 300}
 	for made < budget {
 		L := lens[r.intn(len(lens))] + r.intn(40)
+		if longLeft > 0 && r.chance(30) {
+			longLeft--
+			L = []int{12000, 20000, 40000}[r.intn(3)] + r.intn(40)
+		}
 		N := ratios[r.intn(len(ratios))] * L / 100 / 60
 		class := []int{1, 1, 1, 3, 0, 2}[r.intn(6)] // protobuf strings must be UTF-8: the reference refuses anything else
 		pre := &pgVal{Tag: 4, Kind: pgKMessage}
